@@ -1,4 +1,5 @@
 """C01 — Python codec round-trip."""
+import own_lookup
 import json
 
 import common
@@ -17,7 +18,7 @@ def replace_signed_min(fcp, t, v):
     if type(t) is T.OptionalType:
         return None if v is None else replace_signed_min(fcp, t.underlying_type, v)
     if type(t) is T.StructType:
-        s = fcp.get_struct(t.name).unwrap()
+        s = own_lookup.struct(fcp, t.name)
         return {f.name: replace_signed_min(fcp, f.type, v[f.name]) for f in s.fields}
     return v
 
